@@ -75,6 +75,12 @@ package uePolicyContainer
 //@ end
 
 // ---- C18: UE policy container codec (TS 24.501 Annex D) ----
+// PLMN octets of a sublist / subresult (TS 24.501 D.6.2, D.6.3; digit order of TS 24.008 10.5.1.3, digit 1 = most
+// significant): octet 1 = MCC digit 2 | MCC digit 1, octet 2 = MNC digit 3 (1111 for a 2-digit MNC) | MCC digit 3,
+// octet 3 = MNC digit 2 | MNC digit 1.
+//@ define PlmnSet(u, mcc, mnc) := (u.Mcc != nil && *u.Mcc == mcc && u.Mnc != nil && *u.Mnc == mnc && 0 <= mcc && mcc <= 999 && 0 <= mnc && mnc <= 999 && u.PlmnDigit1 == (uint8((mcc / 10) % 10) << 4) | uint8(mcc / 100) && implies(mnc < 100, u.PlmnDigit2 == 0xf0 | uint8(mcc % 10) && u.PlmnDigit3 == (uint8(mnc % 10) << 4) | uint8(mnc / 10)) && implies(mnc >= 100, u.PlmnDigit2 == (uint8(mnc % 10) << 4) | uint8(mcc % 10) && u.PlmnDigit3 == (uint8((mnc / 10) % 10) << 4) | uint8(mnc / 100)))
+//@ define PlmnGot(p) := (p.Mcc != nil && p.Mnc != nil && *p.Mcc == int(p.PlmnDigit1 & 15) * 100 + int(p.PlmnDigit1 >> 4) * 10 + int(p.PlmnDigit2 & 15) && implies((p.PlmnDigit2 >> 4) == 15, *p.Mnc == int(p.PlmnDigit3 & 15) * 10 + int(p.PlmnDigit3 >> 4)) && implies((p.PlmnDigit2 >> 4) != 15, *p.Mnc == int(p.PlmnDigit3 & 15) * 100 + int(p.PlmnDigit3 >> 4) * 10 + int(p.PlmnDigit2 >> 4)))
+
 // Totality: every parser consumes from a well-formed *bytes.Buffer, never panics, and on success has consumed at
 // least its fixed header, so every list loop terminates (variant: octets left in the buffer).
 //@ define BufOK(b) := (b != nil && buflen(b) >= 0)
@@ -105,6 +111,7 @@ package uePolicyContainer
 //@   requires BufOK(buf)
 //@   ensures buflen(buf) >= 0 && buflen(buf) <= old(buflen(buf))
 //@   ensures implies(err == nil, p != nil && buflen(buf) <= old(buflen(buf)) - 5)
+//@   ensures implies(err == nil, PlmnGot(p))
 //@ end
 
 //@ func (u *UEPolicySectionManagementListContent) UnmarshalBinary(b) (err)
@@ -127,6 +134,7 @@ package uePolicyContainer
 //@   requires BufOK(buf)
 //@   ensures buflen(buf) >= 0 && buflen(buf) <= old(buflen(buf))
 //@   ensures implies(err == nil, p != nil && buflen(buf) <= old(buflen(buf)) - 5)
+//@   ensures implies(err == nil, PlmnGot(p))
 //@ end
 
 //@ func (u *UEPolicySectionManagementResultContent) UnmarshalBinary(b) (err)
@@ -142,4 +150,54 @@ package uePolicyContainer
 //@ func (u *UEPolicySectionManagementResult) UnmarshalBinary(buf) (err)
 //@   requires BufOK(buf)
 //@   ensures buflen(buf) >= 0 && buflen(buf) <= old(buflen(buf))
+//@ end
+
+// Encoders: list loops (range over the list, sub-encoding appended to a local buffer).
+//@ func (u *UEPolicySectionContents) MarshalBinary() (r, err)
+//@   loop 0 invariant BufOK(buf) && -1 <= rangeindex && rangeindex <= len(*u) - 1
+//@   loop 0 decreases len(*u) - rangeindex
+//@ end
+
+//@ func (u *UEPolicySectionManagementSubListContents) MarshalBinary() (r, err)
+//@   loop 0 invariant BufOK(buf) && -1 <= rangeindex && rangeindex <= len(*u) - 1
+//@   loop 0 decreases len(*u) - rangeindex
+//@ end
+
+//@ func (u *UEPolicySectionManagementListContent) MarshalBinary() (r, err)
+//@   loop 0 invariant BufOK(buf) && -1 <= rangeindex && rangeindex <= len(*u) - 1
+//@   loop 0 decreases len(*u) - rangeindex
+//@ end
+
+//@ func (u *UEPolicySectionManagementSubResultContents) MarshalBinary() (r, err)
+//@   loop 0 invariant BufOK(buf) && -1 <= rangeindex && rangeindex <= len(*u) - 1
+//@   loop 0 decreases len(*u) - rangeindex
+//@ end
+
+//@ func (u *UEPolicySectionManagementResultContent) MarshalBinary() (r, err)
+//@   loop 0 invariant BufOK(buf) && -1 <= rangeindex && rangeindex <= len(*u) - 1
+//@   loop 0 decreases len(*u) - rangeindex
+//@ end
+
+// Message encoders write to a caller-supplied buffer; the message body must be present.
+//@ func (m *ManageUEPolicyCommand) EncodeManageUEPolicyCommand(buffer) (err)
+//@   requires m != nil && BufOK(buffer)
+//@ end
+//@ func (m *ManageUEPolicyComplete) EncodeManageUEPolicyComplete(buffer) (err)
+//@   requires m != nil && BufOK(buffer)
+//@ end
+//@ func (m *ManageUEPolicyReject) EncodeManageUEPolicyReject(buffer) (err)
+//@   requires m != nil && BufOK(buffer)
+//@ end
+//@ func (u *UePolDeliverySer) UePolDeliverySerEncode() (r, err)
+//@   requires implies(u.Octet[1] == 1, u.ManageUEPolicyCommand != nil) && implies(u.Octet[1] == 2, u.ManageUEPolicyComplete != nil) && implies(u.Octet[1] == 3, u.ManageUEPolicyReject != nil)
+//@ end
+
+//@ func (u *UEPolicySectionManagementSubList) SetPlmnDigit(mcc, mnc) (err)
+//@   ensures implies(100 <= mcc && mcc <= 999 && 10 <= mnc && mnc <= 999, err == nil)
+//@   ensures implies(err == nil, PlmnSet(u, mcc, mnc))
+//@ end
+
+//@ func (u *UEPolicySectionManagementSubResult) SetPlmnDigit(mcc, mnc) (err)
+//@   ensures implies(100 <= mcc && mcc <= 999 && 10 <= mnc && mnc <= 999, err == nil)
+//@   ensures implies(err == nil, PlmnSet(u, mcc, mnc))
 //@ end
